@@ -1247,14 +1247,26 @@ class Exec:
             if not isinstance(seq, tuple) or self.W.is_tt(seq):
                 return None
             parts = []
+            n0 = len(st.pc)
             for x in seq:
                 s1 = st.fork()
                 s1.env = dict(st.env)
                 s1.env[g.target.id] = x
                 r1 = self.eval(node.elt, s1)
-                if len(r1) != 1 or len(r1[0][0].pc) != len(st.pc):
+                if len(r1) == 1 and len(r1[0][0].pc) == n0:
+                    parts.append(self.truth(r1[0][1], r1[0][0]))
+                    continue
+                # the element test branches (a pure test): its value is the disjunction over its exhaustive paths of
+                # path-condition & result
+                alts = []
+                for s_i, v_i in r1:
+                    b = self.truth(v_i, s_i)
+                    zb = z3.BoolVal(b) if isinstance(b, bool) else b
+                    extra = list(s_i.pc[n0:])
+                    alts.append(z3.And(*(extra + [zb])) if extra else zb)
+                if not alts:
                     return None
-                parts.append(self.truth(r1[0][1], r1[0][0]))
+                parts.append(z3.Or(*alts) if len(alts) > 1 else alts[0])
             res = self.conj(parts) if is_all else self.disj(parts)
             return [(st, self.wrapb(res))]
         except (OutsideSubset, PyExc):
